@@ -40,6 +40,8 @@ def run(ck, fb):
     r09k(ck, fb)
     r09l(ck, fb)
     r09m(ck, fb)
+    r09n(ck, fb)
+    r09o(ck, fb)
 
 
 PAIR_EXCEPTIONS = {
@@ -616,3 +618,124 @@ def r09m(ck, fb, R='R09m'):
     hw = [x for x in util.region(fb, b, 1) for (o, f, bb, st) in x.field_writes() if f == 'histories' and x.name.startswith(CA)]
     hm = util.mut_calls_on_field(b, 'histories', r'Vec::<T, A>::(clear|truncate|drain|remove|pop|push|retain)$')
     ck.require(not hw and not hm, R, 'set_tmp_config:history-untouched', b.where(), 'set_tmp_config changes the history of the key', 'no write to histories')
+
+
+PAGE_FIELDS = ('page_no', 'page_size', 'offset', 'limit', 'page_index')
+PAGE_SCOPE = re.compile(r'^<?rnacos::(openapi::config::api|console::model::config_model|console::config_api|console::v2::config_api|config::config_index|config::core::Config(Actor|QueryParam|HistoryParam))')
+
+
+def r09n(ck, fb, R='R09n'):
+    ck.rule(R, '"correct totals across pages" for EVERY page number and size a client can send: in the config listing code (open api and console '
+               'parameter builders, the search handler, ConfigIndex / TenantIndex paging) no arithmetic on a value that derives from page_no / '
+               'page_size / offset / limit can panic or wrap: no checked +,-,* (MIR *WithOverflow: a panic in a debug build, a wrapped offset - page '
+               '4294967297 serves page 1 again - in a release build), and no division (/, %, div_ceil) by such a value that is not behind a test of '
+               'that value. pageNo=0 underflows, pageSize=0 divides by zero in the handler (the request is dropped), pageNo=2 with pageSize=2^64-1 '
+               'overflows inside the config actor, whose thread dies: every later config request is answered "Mailbox has closed"')
+    n = 0
+    nb = 0
+    for b in sorted(fb.bodies.values(), key=lambda x: x.name):
+        if not PAGE_SCOPE.search(b.name) or '::tests::' in b.name or 'seeded_demo' in b.name or '::hunt_' in b.name or '::_::' in b.name:
+            continue
+        args = [l for l in range(1, b.argc + 1) if b.local_name(l) in PAGE_FIELDS]
+        # values of the request only: not through calls of this crate (their results are program state: counts, list lengths)
+        t = Taint(b, place_src=field_place_src(*PAGE_FIELDS), local_src=args,
+                  stop_calls=lambda term: (cfg.callee_name(term) or '').startswith(('rnacos::', '<rnacos::')))
+        hit = False
+
+        def pure(o):
+            from rn.facts import op_const
+            return op_const(o) is not None or t.op_tainted(o)
+        for (i, j, st) in b.stmts():
+            rv = st.get('rv')
+            if not rv or rv['k'] != 'bin':
+                continue
+            op = rv['op']
+            if op in ('SubWithOverflow', 'MulWithOverflow', 'AddWithOverflow'):
+                # an operation between a request value and program state (limit - rows.len()) may rest on an invariant the rule does not see;
+                # one purely among request values and constants cannot
+                if not (t.op_tainted(rv['a']) or t.op_tainted(rv['b'])) or not (pure(rv['a']) and pure(rv['b'])):
+                    continue
+                hit = True
+                n += 1
+                ck.bad(R, '%s:%s' % (fb.root_of(b.name).split('rnacos::')[-1], op), b.where(i),
+                       '%s computes %s on a value that derives from the page number / size of the request without saturating or checking: '
+                       'it panics (debug) or wraps (release) for page 0, or for a page number times size beyond usize - the listing is not '
+                       'answered, or answered with the items of another page' % (fb.root_of(b.name), op[:3].lower()))
+            elif op in ('Div', 'Rem') and t.op_tainted(rv['b']):
+                hit = True
+                n += 1
+                _div_guard(ck, fb, b, i, rv['b'], R, op)
+        for s0 in b.calls(r'::div_ceil$|::div_euclid$|::rem_euclid$|::next_multiple_of$'):
+            if len(s0.args) > 1 and t.op_tainted(s0.args[1]):
+                hit = True
+                n += 1
+                _div_guard(ck, fb, b, s0.bb, s0.args[1], R, s0.callee.split('::')[-1])
+        if hit or t.t:
+            nb += 1
+            ck.analysed(b)
+    ck.floor(R, 'config listing functions that handle page numbers / sizes', nb, 6)
+    if n == 0:
+        ck.ok(R, 'page-arithmetic-total', '', 'no checked arithmetic / unguarded division on page values in %d functions' % nb)
+
+
+def _div_guard(ck, fb, b, bb, divisor, R, op):
+    want = cfg.origin_fields(b, divisor)[-1:]
+    d0 = cfg.strip_calls(b, cfg.describe_operand(b, divisor))
+    ok = False
+    for a in cfg.guard_atoms(b, bb):
+        if a[0] == 'cmp':
+            for side in (a[2], a[3]):
+                sd = cfg.strip_calls(b, side)
+                if sd['k'] == 'place' and want and sd['fields'][-1:] == want:
+                    ok = True
+                if sd['k'] == d0['k'] == 'arg' and sd['l'] == d0['l']:
+                    ok = True
+                if sd['k'] == d0['k'] == 'multi' and sd['l'] == d0['l']:
+                    ok = True
+    # the compiler's own `divisor == 0 -> panic` assert is not a guard: it IS the panic
+    ck.require(ok, R, '%s:%s-by-page-value' % (fb.root_of(b.name).split('rnacos::')[-1], op), b.where(bb),
+               '%s divides (%s) by a value that derives from the page size of the request without testing it: pageSize=0 panics the handler / the '
+               'actor instead of answering an empty page' % (fb.root_of(b.name), op), 'behind a test of the divisor')
+
+
+def r09o(ck, fb, R='R09o'):
+    ck.rule(R, '"reading a key returns the most recently applied publish OF THAT KEY": a write travels as ConfigKey::build_key() (parts joined with '
+               '\\x02) in the log entry, the snapshot and the backup and is read back by splitting, so only a key that survives that round trip is '
+               'applied under its own name. ConfigRoute::set_config / del_config - the entry point of every publish and remove (HTTP, gRPC, console, '
+               'zip import) - pass a check of the key before anything is sent (to the local ConfigActor or to the leader): a call, with its result '
+               'branched on, of a function that rebuilds the key from build_key() and compares, or of ConfigKey::is_valid. Without it a gRPC publish '
+               'of dataId "a\\x02b", group "t9" is acknowledged and stored as dataId "a", group "b", tenant "t9" - another tenant\'s key')
+    CR = 'rnacos::raft::cluster::route::ConfigRoute::'
+    CKN = 'rnacos::config::core::ConfigKey'
+
+    def is_checker(name, depth=0):
+        hb = fb.bodies.get(name or '')
+        if hb is None or hb.parent:
+            return False
+        if name == CKN + '::is_valid':
+            return True
+        reg = util.region(fb, hb, 1)
+        bk = any(x.calls(re.escape(CKN) + r'::build_key$') for x in reg)
+        fr = any(x.calls(r'<' + re.escape(CKN) + r' as std::convert::From<&str>>::from$') for x in reg)
+        cmp_ = any(x.calls(r'::(eq|ne)$') for x in reg)
+        return (bk and fr and cmp_) or (depth < 1 and any(is_checker(s1.resolved or s1.callee, depth + 1) for x in reg for s1 in x.sites if s1.callee))
+    n = 0
+    for fn in ('set_config', 'del_config'):
+        b = ck.main(CR + fn, R)
+        if not b:
+            continue
+        sinks = [s0 for (s0, m0, v0, a0) in util.sends(b, r'ConfigAsyncCmd$')] + list(b.calls(r'RaftClusterRequestSender::send_request$'))
+        ck.floor(R, 'places where %s hands the write on' % fn, len(sinks), 2)
+        disc = {d['bb'] if isinstance(d, dict) and 'bb' in d else None for d in []}
+        checks = [s0 for s0 in b.sites if s0.callee and is_checker(s0.resolved or s0.callee)]
+        # the answer of the check is looked at: it flows into a Try::branch / a match (a switch on it dominates the sinks)
+        looked = [s0 for s0 in checks if any(Taint(b, local_src=[s0.dst] if isinstance(s0.dst, int) else []).op_tainted(t0['discr'])
+                                             for (sb, d0, lab0, t0) in cfg.switch_edges(b))]
+        for s1 in sinks:
+            n += 1
+            ok = bool(looked) and cfg.dominates_blocks(b, {s0.bb for s0 in looked}, s1.bb)
+            ck.require(ok, R, '%s:key-checked-before-%s' % (fn, (s1.callee or '').split('::')[-1]), s1.where(),
+                       'ConfigRoute::%s hands the write on without having checked that the key survives build_key() -> ConfigKey::from(&str): a key '
+                       'whose dataId / group / tenant contains \\x02 is acknowledged and applied under ANOTHER key (dataId a\\x02b, group t9 -> dataId a, '
+                       'group b, tenant t9), the published key stays not-found' % fn, 'behind the key check')
+    ck.floor(R, 'hand-over sites judged', n, 4)
